@@ -161,7 +161,9 @@ def jobGraphJ (insts : List ProfileInst) (jg : JobGraph) (ls : LoopState) : Json
                   ("cond", Json.bool p.1.cond), ("term", Json.bool p.1.term), ("prob", jInt p.1.prob),
                   ("children", jList (fun c => jStr (nameOf jg.jobs c)) p.2)])
       (jg.jobs.zip jg.children)),
-    ("T", match completionTime insts jg with | .ok t => jInt t | .error e => jStr e),
+    -- an empty graph has `completion_time = None` (only `None.fuzz` fails, on the first release)
+    ("T", if jg.jobs.isEmpty then jStr "None" else
+          match completionTime insts jg with | .ok t => jInt t | .error e => jStr e),
     ("remaining", jInt ls.remaining), ("index", jInt ls.index)]
 
 def taskGraphJ (jg : JobGraph) (tg : TaskGraph) : Json :=
